@@ -25,12 +25,14 @@ def run(tier):
         pc.tlc_signsupport(chk)
         from vlib.drive_C05 import batch_maps
         maps = batch_maps(chk)
-        f = pc.freq()
+        f_lin = pc.freq()
+        f_log = 0.04 * (1.0 / 0.04) ** (np.arange(len(f_lin)) / (len(f_lin) - 1.0))       # same number of bins, logarithmic spacing
         tr = pc.SupportTrace(os.path.join(work, "c08.ndjson"))
         balances = {"st4": create_balance("st4", "st4"), "st6": create_balance("st4", "st6")}
         nonrom = rng.random()
-        configs = [(16, 0), (24, 5), (36, -170)] if quick else [(16, 0), (16, 11), (24, 0), (24, 5), (36, 0), (36, -170), (36, 5)]
-        for (N, start) in configs:
+        configs = [(16, 0), (24, 0), (24, 5), (36, -170)] if quick else [(16, 0), (16, 11), (24, 0), (24, 5), (36, 0), (36, -170), (36, 5)]
+        for ci, (N, start) in enumerate(configs):
+            f = f_log if ci % 2 else f_lin         # the same balance objects see different grids of the same shape in turn
             delta = 360 // N if 360 % N == 0 else None
             dirs = [start + j * (360.0 / N) for j in range(N)]
             # directions and winds as integers in units of 360/P degrees (P = 360 or 720: half degrees)
@@ -55,6 +57,9 @@ def run(tier):
                 ctx = {"N": N, "start": start, "dissipation": bname}
                 try:
                     z0 = bal.generation.roughness(U, W, spec)
+                    # the roughness iteration may report "missing" (C10); C08 is about the source terms at a given
+                    # roughness length, so such points get a fixed one
+                    z0 = z0.where(np.isfinite(z0), 2.0e-4)
                     gin = bal.generation.rate(spec, U, W, roughness_length=z0).values
                     dis = bal.dissipation.rate(spec).values
                     gbulk = bal.generation.bulk_rate(spec, U, W, roughness_length=z0).values
@@ -92,11 +97,26 @@ def run(tier):
                 dEdt = pc.spectrum(f, dirs, [0.01 * np.asarray(v) for v in vds], depths)
                 imb = bal.evaluate_imbalance(U, W, spec, dEdt).values
                 gfree = bal.generation.rate(spec, U, W).values
-                if not np.allclose(imb, gfree + dis - dEdt.variance_density.values, rtol=1e-10, atol=1e-300):
+                if not np.allclose(imb, gfree + dis - dEdt.variance_density.values, rtol=1e-10, atol=1e-300, equal_nan=True):
                     chk.violation("imbalance:%s" % bname, "imbalance is not generation + dissipation - dE/dt", ctx)
                 bimb = bal.evaluate_bulk_imbalance(U, W, spec, dEdt).values
-                if not np.allclose(bimb, bal.generation.bulk_rate(spec, U, W).values + dbulk - dEdt.m0().values, rtol=1e-10, atol=1e-18):
+                if not np.allclose(bimb, bal.generation.bulk_rate(spec, U, W).values + dbulk - dEdt.m0().values, rtol=1e-10, atol=1e-18, equal_nan=True):
                     chk.violation("bulk-imbalance:%s" % bname, "bulk imbalance is not bulk generation + bulk dissipation - m0(dE/dt)", ctx)
+                # bulk = integral for every combination of forcing type and supplied / internally solved roughness
+                for wtype, spd in (("u10", U), ("friction_velocity", pc.da([0.04 * u for u in winds]))):
+                    for zz in (None, z0):
+                        try:
+                            gr = bal.generation.rate(spec, spd, W, roughness_length=zz, wind_speed_input_type=wtype).values
+                            gb = bal.generation.bulk_rate(spec, spd, W, roughness_length=zz, wind_speed_input_type=wtype).values
+                        except Exception as e:
+                            chk.violation("raise:bulk-combo:%s" % type(e).__name__, "generation rate / bulk rate raised", dict(ctx, wind_type=wtype, error=str(e)[:200]))
+                            continue
+                        evals += len(vds)
+                        gs = np.sum(gr * df[None, :, None] * dd[None, None, :], axis=(1, 2))
+                        if not np.allclose(gb, gs, rtol=1e-9, atol=1e-18, equal_nan=True):
+                            chk.violation("bulk-combo:%s:%s" % (wtype, "given-z0" if zz is not None else "solved-z0"),
+                                          "bulk wind input is not the integral of the spectral wind input (%s forcing, roughness %s)" % (wtype, "supplied" if zz is not None else "solved internally"),
+                                          dict(ctx, bulk=gb.tolist(), integral=gs.tolist()))
                 # friction-velocity input type
                 ust = pc.da([0.04 * u for u in winds])
                 g_u = bal.generation.rate(spec, ust, W, roughness_length=z0, wind_speed_input_type="friction_velocity").values
@@ -113,18 +133,19 @@ def run(tier):
                     dp = bal.dissipation.rate(sp).values
                     gbp = bal.generation.bulk_rate(sp, Up, Wp).values
                     evals += len(vds)
-                    if not (np.array_equal(gp, gfree[perm]) and np.array_equal(dp, dis[perm]) and
-                            np.allclose(gbp, bal.generation.bulk_rate(spec, U, W).values[perm], rtol=1e-12, atol=0)):
+                    if not (np.array_equal(gp, gfree[perm], equal_nan=True) and np.array_equal(dp, dis[perm]) and
+                            np.allclose(gbp, bal.generation.bulk_rate(spec, U, W).values[perm], rtol=1e-12, atol=0, equal_nan=True)):
                         chk.violation("batch-permutation:%s" % bname, "permuting the points of a batch changes their results", dict(ctx, perm=perm))
                 i = rng.randrange(len(vds))
                 s1 = pc.spectrum(f, dirs, [vds[i]], [depths[i]])
                 g1 = bal.generation.rate(s1, pc.da([winds[i]]), pc.da([wdirs[i]])).values[0]
                 d1 = bal.dissipation.rate(s1).values[0]
-                if not (np.array_equal(g1, gfree[i]) and np.array_equal(d1, dis[i])):
+                if not (np.array_equal(g1, gfree[i], equal_nan=True) and np.array_equal(d1, dis[i])):
                     chk.violation("batch-independence:%s" % bname, "a point of a batch does not get the result it gets alone", dict(ctx, point=i))
         # Romero dissipation on strictly positive spectra
         try:
             rom = create_breaking_dissipation("romero")
+            f = f_lin
             dirs = [j * 15.0 for j in range(24)]
             vds = [pc.sea(f, dirs, 0.15, 3.0, 40.0) + 1e-9, pc.sea(f, dirs, 0.25, 1.5, 200.0) + 1e-9]
             spec = pc.spectrum(f, dirs, vds)
